@@ -129,11 +129,13 @@ Proof. split; [exact SL_laws|exact s_wplace_conserve]. Qed.
 Print Assumptions C13_simple_ledger.
 
 (* and so is the shared worker model (Model/Res.v + Model/Worker.v: `any` and specific resource ids, the full
-   allocation ledger, Worker.place_task / can_accomodate_strategy / __deepcopy__ as modelled for C04), for plain
-   strategies with non-negative requests on well-formed ledgers; a fresh worker is well formed *)
+   allocation ledger, Worker.place_task / can_accomodate_strategy (the cumulative fit test of /repo 402c33a) /
+   __deepcopy__ as modelled for C04), for plain strategies with non-negative requests naming each resource once, on
+   well-formed ledgers; a fresh worker is well formed; after the fit test place_task never raises *)
 Theorem C13_worker_model : ledger_laws WL w_wle w_wok w_sok /\
-  (forall id v, NoDup (map fst v) -> nonneg_vec v -> w_wok (w_new id v)).
-Proof. split; [exact WL_laws|exact w_new_ok]. Qed.
+  (forall id v, NoDup (map fst v) -> nonneg_vec v -> w_wok (w_new id v)) /\
+  (forall t s w, w_wok w -> w_sok s -> w_fits s w = true -> snd (w_place t s w) = Ok tt).
+Proof. split; [exact WL_laws|]. split; [exact w_new_ok|exact w_place_succeeds]. Qed.
 Print Assumptions C13_worker_model.
 (* hence, e.g., EDF on the shared worker model *)
 Theorem C13_edf_worker_model : forall e pre now (c : cluster WL) offered ds cf i x,
